@@ -85,13 +85,30 @@ func worker() {
 	defer w.Flush()
 	enc := json.NewEncoder(w)
 	total := p.Count(tier)
+	var curIdx atomic.Int64
+	curIdx.Store(-1)
+	var wmu sync.Mutex
+	go spinMonitor(1, func(cpuS int, choices []int) {
+		wmu.Lock()
+		i := int(curIdx.Load())
+		r := &core.ScnResult{Index: i}
+		r.Fail(spinFailure(p.ID, tier, i, cpuS, choices))
+		enc.Encode(r)
+		enc.Encode(map[string]any{"capped": true, "next": i + n})
+		enc.Encode(map[string]any{"done": true})
+		w.Flush()
+		os.Exit(0)
+	})
 	for i := shard; i < total; i += n {
+		curIdx.Store(int64(i))
 		if time.Now().After(deadline) {
 			enc.Encode(map[string]any{"capped": true, "next": i})
 			break
 		}
+		wmu.Lock()
 		enc.Encode(map[string]any{"start": i})
 		w.Flush()
+		wmu.Unlock()
 		r := &core.ScnResult{Index: i}
 		t0 := time.Now()
 		vsched.ExploreDeadline = t0.Add(time.Duration(envInt("VERIF_SCENARIO_CAP_S", map[string]int{"quick": 120, "thorough": 1200}[tier])) * time.Second)
@@ -102,10 +119,47 @@ func worker() {
 		if d := time.Since(t0); os.Getenv("VERIF_SLOW") != "" && d > 500*time.Millisecond {
 			fmt.Fprintf(os.Stderr, "SLOW scenario %d: %s\n", i, d)
 		}
+		wmu.Lock()
 		enc.Encode(r)
 		w.Flush()
+		wmu.Unlock()
 	}
+	wmu.Lock()
 	enc.Encode(map[string]any{"done": true})
+}
+
+// spinMonitor watches an execution under the scheduler for a thread that burns CPU without ever reaching a scheduling
+// point: the scheduler is cooperative, so such a thread stops the whole execution and no virtual-time horizon can end it.
+// The measure is CPU time of this process while the scheduler's progress counter stands still inside an execution - not
+// wall-clock time - so machine load cannot trip it; executions of the unchanged tree reach a scheduling point every few
+// microseconds of CPU. VERIF_SPIN_CPU_S (default 90) is the CPU budget.
+func spinMonitor(div int, report func(cpuS int, choices []int)) {
+	budget := time.Duration(envInt("VERIF_SPIN_CPU_S", 90)) * time.Second / time.Duration(div)
+	cpu := func() time.Duration {
+		var ru syscall.Rusage
+		syscall.Getrusage(syscall.RUSAGE_SELF, &ru)
+		return time.Duration(ru.Utime.Nano() + ru.Stime.Nano())
+	}
+	var last uint64
+	var since time.Duration = -1
+	for {
+		time.Sleep(2 * time.Second)
+		in, n := vsched.Progress()
+		if !in || n != last || since < 0 {
+			last, since = n, cpu()
+			continue
+		}
+		if d := cpu() - since; d >= budget {
+			report(int(d/time.Second), vsched.CurrentChoices())
+			return
+		}
+	}
+}
+
+func spinFailure(id, tier string, idx, cpuS int, choices []int) core.Failure {
+	return core.Failure{Key: id + " spin/no-scheduling-point-reached",
+		What:     fmt.Sprintf("scenario %d (%s tier): a thread consumed %d s of CPU without reaching a scheduling point - the code under test is in a loop that never ends and never waits, so the run does not end", idx, tier, cpuS),
+		Scenario: core.JSON(map[string]any{"spin_index": idx, "tier": tier}), Choices: choices}
 }
 
 // ---- master ------------------------------------------------------------------------
@@ -558,6 +612,30 @@ func replay() int {
 		return 2
 	}
 	runtime.GOMAXPROCS(1)
+	var spin struct {
+		Index *int   `json:"spin_index"`
+		Tier  string `json:"tier"`
+	}
+	if json.Unmarshal(rf.Scenario, &spin) == nil && spin.Index != nil {
+		// a spin finding names the scenario, not one schedule: re-explore the scenario under the same monitor
+		// (a third of the exploration's CPU budget: the replay confirms a loop the exploration has already met)
+		go spinMonitor(3, func(cpuS int, choices []int) {
+			f := spinFailure(p.ID, spin.Tier, *spin.Index, cpuS, choices)
+			fmt.Printf("%s\nORACLE FAILED %s\n  decisions before the loop: %v\n", f.What, f.Key, choices)
+			os.Exit(1)
+		})
+		r := &core.ScnResult{Index: *spin.Index}
+		vsched.ExploreDeadline = time.Now().Add(20 * time.Minute)
+		p.Run(spin.Tier, *spin.Index, r)
+		for _, f := range r.Failures {
+			fmt.Printf("ORACLE FAILED %s: %s\n", f.Key, f.What)
+		}
+		if len(r.Failures) > 0 {
+			return 1
+		}
+		fmt.Printf("scenario %d explored to its bound: no thread spins, no oracle fails\n", *spin.Index)
+		return 0
+	}
 	desc, ok := p.Replay(rf.Scenario, rf.Choices)
 	fmt.Print(desc)
 	if !ok {
